@@ -1197,6 +1197,27 @@ class GroupCoordinator(BaseCoordinator):
 
         request = OffsetFetchRequest(self.group_id, list(partitions_by_topic.items()))
         response = await self._send_req(request)
+        if response.API_VERSION >= 2:
+            # Since v2 group-level errors are only reported in the top-level
+            # field and the partition list is left empty
+            error_type = Errors.for_code(response.error_code)
+            if error_type is not Errors.NoError:
+                error = error_type()
+                log.debug(
+                    "Error fetching offsets for group %s: %s", self.group_id, error
+                )
+                if error_type is Errors.GroupLoadInProgressError:
+                    # just retry
+                    raise error
+                elif error_type is Errors.NotCoordinatorForGroupError:
+                    # re-discover the coordinator and retry
+                    self.coordinator_dead()
+                    raise error
+                elif error_type is Errors.GroupAuthorizationFailedError:
+                    raise error_type(self.group_id)
+                else:
+                    log.error("Unknown error fetching offsets: %s", error)
+                    raise Errors.KafkaError(repr(error))
         offsets = {}
         for topic, topic_partitions in response.topics:
             for partition, offset, metadata, error_code in topic_partitions:
